@@ -88,3 +88,6 @@ Definition erun (ops : list eop) (s : estate) : estate := fold_left estep ops s.
 (* never more live workers than the size the executor currently has *)
 Definition exec_ok (s : estate) : Prop :=
   match s_exec s with None => True | Some e => 0 <= x_alive e <= x_max e /\ 1 <= x_max e end.
+
+(* size of the executor that REPLACES one which cannot be reused: the requested one, or (if the source reassigns it) the dead one's *)
+Definition replacement_size (requested_ok : bool) (requested dead : Z) : Z := if requested_ok then requested else dead.
